@@ -19,6 +19,38 @@ _MC = ("TLC explores the bounded %s specification exhaustively (design check of 
        "real bio-rd objects with the complete projected state compared after each step")
 
 CHECKS = {
+    "C15": {
+        "text": "BitNet defines containment, equality, supernet, base address, validity, bit-at-position and address order on sets of "
+                "bit positions. TLC checks the algebra of the definitions on every pair (and third element) of width-4/5 prefixes "
+                "(strict partial order, supernet is the meet, base/valid/compare laws) and evaluates them at width 32 and 128 on the "
+                "case domain (4 patterns x every length x neighbouring lengths x flipped bit); every case is executed on net.Prefix / "
+                "net.IP and compared, plus print->parse and bytes round trips.",
+        "note": "Trusted: TLC, the word<->bit conversion in the adapter. IPv6 flipped-bit positions are boundary+seeded in quick, all 128 in thorough.",
+        "technique": "TLA+ spec BitNet (algebra checked by TLC, cases enumerated by TLC); per-case replay against net/prefix.go, net/ip.go",
+    },
+    "C03": {
+        "text": "Decision defines the preference as a lexicographic key; TLC checks on every pair of the head/tail/static domains that it "
+                "is a total preorder and satisfies the RFC 4271 9.1.2.2 / RFC 4456 s9 directions stated independently (RFC_Head, RFC_Tail); "
+                "every ordered pair is run through the real Path.Select in both orders (sign and antisymmetry) and Path.ECMP.",
+        "note": "Trusted: TLC; the direction of the final next-hop comparison is not prescribed by the property and only required to be non-zero and antisymmetric.",
+        "technique": "TLA+ spec Decision enumerated by TLC; pair replay against route.Path.Select",
+    },
+    "C02": {
+        "text": "(a) as C03: agreement of the real Select with a relation TLC has shown to be a total preorder on all pairs implies "
+                "antisymmetry and transitivity of the real relation on that domain. (b) LocRIB spec: the selection is the sorted "
+                "sequence of the set of present paths (invariant SelectionIsFunctionOfSet); TLC emits every insertion sequence of up "
+                "to 4 paths from the cycle-maker domain without VIEW (all permutations), the add/remove transition graph and random "
+                "add/remove/replace histories; after each step the real Loc-RIB's order, best path, ECMP set size and counts are compared.",
+        "note": "Trusted: TLC, the adapter's name resolution by Path.Compare. Domain has no complete ties (sort stability is not exercised).",
+        "technique": "TLA+ specs Decision + LocRIB; pair replay and all-permutation behaviour replay against route.Path.Select / locRIB.LocRIB",
+    },
+    "C04": {
+        "text": _MC % "LocRIB" + " (clients best/ecmp/max1/max2/max4 with Register/Unregister/Refresh interleaved with AddPath/"
+                "RemovePath/ReplacePath; invariant ClientsHoldWindow, action property UnregisteredUntouched). The recording client "
+                "accumulates initial dump + adds - removes per prefix, for unregistered clients the frozen view is still compared.",
+        "note": "Trusted: TLC, the recording client (set semantics with multiplicity), sequential quiescent points only (concurrency is C25).",
+        "technique": "TLA+ spec LocRIB + TLC exhaustive check; behaviour replay (witness per transition + simulation) against locRIB.LocRIB with recording clients",
+    },
     "C35": {
         "text": "The SPT module defines distances by Bellman-Ford fixpoint; TLC checks the laws of that definition (source 0, finite iff "
                 "reachable, triangle inequality, realised by a predecessor, fixpoint) on every enumerated graph and emits graph + "
